@@ -24,6 +24,7 @@ CONSTANTS
   RawOps,     \* TRUE: PushContext / PopContext are called directly
   CallOps,    \* TRUE: CallContext is used
   StopOps,    \* TRUE: SetStopLevel is used
+  Emitting,   \* TRUE: every transition prints its replayable line and keeps the history (exploration); FALSE: trace validation
   MaxUsed     \* state constraint: counters explored up to this value
 
 VARIABLES
@@ -37,7 +38,7 @@ VARIABLES
 vars == <<stack, frames, pan, fail, last, hist>>
 View == <<stack, frames, pan, fail>>      \* `last` and `hist` are outputs only
 
-Emit(v) == PrintT(<<"@@", ToJson(v)>>)
+Emit(v) == IF Emitting THEN PrintT(<<"@@", ToJson(v)>>) ELSE TRUE
 
 -----------------------------------------------------------------------------
 (* arithmetic of runtimecontext.go *)
@@ -51,7 +52,7 @@ MergeR(r, r1) == IF SmallerLimit(r1, r) THEN r1 ELSE r
 NoCtx == [nil |-> TRUE]
 
 RootCtx == [hc |-> 0, hm |-> 0, sc |-> 0, sm |-> 0, uc |-> 0, um |-> 0,
-            flags |-> {}, status |-> "live", stop |-> {}, tc |-> FALSE, tm |-> FALSE]
+            flags |-> {}, status |-> "live", stop |-> {}, tc |-> FALSE, tm |-> FALSE, cause |-> "none"]
 
 Due(c) == "soft" \in c.stop \/ AtLimit(c.uc, c.sc) \/ AtLimit(c.um, c.sm)
 
@@ -60,14 +61,14 @@ ReqC(c, n) ==
   IF ~c.tc THEN <<c, FALSE>>
   ELSE IF "hard" \in c.stop /\ c.status = "live" THEN <<[c EXCEPT !.status = "killed"], TRUE>>
   ELSE LET u == Add(c.uc, n) IN
-       IF AtLimit(u, c.hc) /\ c.status = "live" THEN <<[c EXCEPT !.status = "killed"], TRUE>>
+       IF AtLimit(u, c.hc) /\ c.status = "live" THEN <<[c EXCEPT !.status = "killed", !.cause = "cpu"], TRUE>>
        ELSE <<[c EXCEPT !.uc = u], FALSE>>
 
 ReqM(c, n) ==
   IF ~c.tm THEN <<c, FALSE>>
   ELSE IF "hard" \in c.stop /\ c.status = "live" THEN <<[c EXCEPT !.status = "killed"], TRUE>>
   ELSE LET u == Add(c.um, n) IN
-       IF AtLimit(u, c.hm) /\ c.status = "live" THEN <<[c EXCEPT !.status = "killed"], TRUE>>
+       IF AtLimit(u, c.hm) /\ c.status = "live" THEN <<[c EXCEPT !.status = "killed", !.cause = "mem"], TRUE>>
        ELSE <<[c EXCEPT !.um = u], FALSE>>
 
 (* PushContext: the new active context computed from the current one *)
@@ -79,7 +80,7 @@ Child(p, d) ==
   IN [hc |-> hc, hm |-> hm, sc |-> sc, sm |-> sm, uc |-> 0, um |-> 0,
       flags |-> p.flags \cup d.flags \cup (IF d.hc > 0 THEN {"cpusafe"} ELSE {})
                                     \cup (IF d.hm > 0 THEN {"memsafe"} ELSE {}),
-      status |-> "live", stop |-> p.stop,
+      status |-> "live", stop |-> p.stop, cause |-> "none",
       tc |-> (hc > 0 \/ sc > 0), tm |-> (hm > 0 \/ sm > 0)]
 
 (* PopContext on a stack: the parent copy is re-charged through its own
@@ -94,7 +95,20 @@ PopRes(st) ==
        IN IF r1[2] THEN [st |-> [st EXCEPT ![n-1] = r1[1]], pan |-> TRUE, ret |-> NoCtx]
           ELSE LET r2 == ReqM(r1[1], child.um) IN
                IF r2[2] THEN [st |-> [st EXCEPT ![n-1] = r2[1]], pan |-> TRUE, ret |-> NoCtx]
-               ELSE [st |-> Append(SubSeq(st, 1, n-2), r2[1]), pan |-> FALSE, ret |-> cp]
+               ELSE
+               (* popped.  A child killed by a limit it merely inherited (all that its parent had left)
+                  means the parent's own limit was reached: the parent is terminated too. *)
+               LET par == st[n-1]
+                   leftc == RemoveR(par.hc, par.uc)
+                   leftm == RemoveR(par.hm, par.um)
+                   p2 == r2[1]
+                   prop == IF child.status # "killed" \/ p2.status # "live" THEN "none"
+                           ELSE IF child.cause = "cpu" /\ leftc > 0 /\ child.hc = leftc THEN "cpu"
+                           ELSE IF child.cause = "mem" /\ leftm > 0 /\ child.hm = leftm THEN "mem"
+                           ELSE "none"
+               IN IF prop = "none"
+                  THEN [st |-> Append(SubSeq(st, 1, n-2), p2), pan |-> FALSE, ret |-> cp]
+                  ELSE [st |-> Append(SubSeq(st, 1, n-2), [p2 EXCEPT !.status = "killed", !.cause = prop]), pan |-> TRUE, ret |-> NoCtx]
 
 -----------------------------------------------------------------------------
 (* observable projection: what the RuntimeContext interface exposes *)
@@ -166,7 +180,7 @@ Step(ev, st, fr, p, fl, l, extraViol) ==
   /\ pan' = p
   /\ fail' = IF p = "none" THEN NoFail ELSE fl
   /\ last' = l
-  /\ hist' = Append(hist, ev)
+  /\ hist' = IF Emitting THEN Append(hist, ev) ELSE hist
   /\ Emit([h |-> hist', exp |-> [stack |-> ProjStack(st), pan |-> p, last |-> l, nframes |-> Len(fr)],
            viol |-> CtxViol(st) \cup extraViol])
 
